@@ -482,3 +482,21 @@ Proof.
   exists [EvEnq (mkItem 1 0 1) 0; EvLoop ChStep 0; EvLoop ChStep 0; EvLoop ChStep 0; EvLoop ChStep 0].
   eexists. split; [vm_compute; reflexivity|]. cbn. discriminate.
 Qed.
+
+(* The in-flight Enqueue: an Enqueue that passed the unlocked stopped test before Close was called
+   and whose locked body runs only after Close (the call that won the CompareAndSwap) took the
+   running token - in particular after it returned: the item is queued and never run. *)
+Lemma close_inflight_enqueue v t evs s r p s1 evs' s' :
+  run v (init_at t) evs = Some s -> close_holds_token s ->
+  step v s (EvEnq r p) = Some s1 -> run v s1 evs' = Some s' ->
+  In r (q s1) /\ loop s' = LNone /\ executed s' = executed s.
+Proof.
+  intros Hrun Hc Hs Hrun'.
+  assert (Hrun2 : run v s (EvEnq r p :: evs') = Some s') by (cbn [run]; rewrite Hs; exact Hrun').
+  destruct (close_final v t evs s _ s' Hrun Hc Hrun2) as [Hl [Hx _]].
+  split; [|split; assumption].
+  cbn in Hs. inversion Hs; subst s1. unfold do_enqueue.
+  assert (Hq : forall b x, q (process b x) = q x).
+  { intros b x. unfold process. destruct (running x); [destruct b|]; reflexivity. }
+  rewrite Hq. cbn. apply q_insert_In. left; reflexivity.
+Qed.
